@@ -430,17 +430,22 @@ def sampling_cases(rng, tier):
         mode = MODES[(it // len(FLAVOURS)) % len(MODES)]
         if flavour == 'ufunc' and mode.endswith('-out'):
             mode = 'array'       # recorded finding sampling-1d-ufunc-inplace-valueerror, probed separately
+        err = None
         with warnings.catch_warnings():
             warnings.simplefilter('ignore')
-            arr = sample(sp, env['f'], mode)
+            try:
+                arr = sample(sp, env['f'], mode)
+            except Exception as e:      # an exception is a failing case (empty output), not a harness crash
+                arr, err = np.zeros(0, dtype=dtype), '%s: %s' % (type(e).__name__, str(e)[:200])
         cvs = [c.tolist() for c in sp.grid.coord_vectors]
         flat = np.asarray(arr).ravel()
         term = ('{| s_cvs := %s; s_re := %s; s_im := %s; s_cplx := %s; s_out_re := %s; s_out_im := %s |}'
                 % (C.qss(cvs), ex_re.coq(), ex_im.coq(), C.b(cplx),
                    C.qs([float(v) for v in flat.real.tolist()]),
                    C.qs([float(v) for v in flat.imag.tolist()]) if cplx else '[]'))
-        desc = {'flavour': flavour, 'mode': mode, 'dtype': dtype, 'space': spsrc, 'callable': src,
-                'shape': list(sp.shape)}
+        desc = {'family': 'sampling', 'flavour': flavour, 'mode': mode, 'dtype': dtype, 'space': spsrc,
+                'callable': src, 'shape': list(sp.shape), 'error': err, 'd': d,
+                'scalar_expr': ex_re.src(False, 'p') + ((' + 1j * (%s)' % ex_im.src(False, 'p')) if cplx else '')}
         nontriv = len(set(flat.tolist())) > 1
         cs.add(term, desc, (flavour, mode, dtype, spsrc, src) if nontriv else None)
     return cs
@@ -777,6 +782,58 @@ def probes(rng, tier):
                'linear_interpolator on a grid with a single node along an axis (%d-d) reproduces the node values' % d,
                snip)
     return out
+
+
+def _sampling_snippet(desc):
+    return ('import numpy as np, odl, warnings\nwarnings.simplefilter("ignore")\n' + SAMPLE_SRC + desc['space']
+            + desc['callable'] + 'got = sample(space, f, %r)\n' % desc['mode'] +
+            'expected = np.array([%s for p in space.points()]).reshape(space.shape).astype(space.dtype)\n'
+            'observed = got\nok = got.shape == space.shape and got.dtype == space.dtype and '
+            'bool(np.all(got == expected))\n' % desc['scalar_expr'])
+
+
+def _interp_snippet(desc):
+    d = len(desc['cvs'])
+    kind = desc['kind']
+    eff = {'nearest': ['nearest'] * d, 'linear': ['linear'] * d, 'per_axis': desc['schemes']}[kind]
+    if desc['dtype'] == 'complex128':
+        f = 'np.array(%r).reshape(%r) + 1j * np.array(%r).reshape(%r)' % (
+            desc['values'], tuple(len(c) for c in desc['cvs']), desc['imag'], tuple(len(c) for c in desc['cvs']))
+    elif desc['dtype'] == 'str':
+        return None
+    else:
+        f = 'np.array(%r, dtype=%r).reshape(%r)' % (desc['values'], desc['dtype'], tuple(len(c) for c in desc['cvs']))
+    snip = REF + 'cvs = %r\nf = %s\nschemes = %r\nitp = make(%r, schemes, f, cvs)\n' % (desc['cvs'], f, eff, kind)
+    if desc['conv'] == 'mesh':
+        snip += ('mesh = %r\npts = list(itertools.product(*mesh))\n'
+                 'observed = [complex(v) for v in np.asarray(itp(sparse_meshgrid(*[np.array(x) for x in mesh]))).ravel()]\n'
+                 % (desc['mesh'],))
+    else:
+        snip += 'pts = %r\nobserved = call(itp, %r, pts, %d)\n' % (desc['points'], desc['conv'], d)
+    snip += 'expected = [ref_interp(schemes, cvs, f, p) for p in pts]\nok = close(observed, expected, 1e-12)\n'
+    return snip
+
+
+def search(rng, broken):
+    """A correspondence case failed: evaluate the PROPERTY (textbook reference, no model) on that very
+    input and return a failing probe with a replay, if it fails."""
+    for kind, what, desc in broken:
+        if kind != 'correspondence' or not isinstance(desc, dict):
+            continue
+        snip = None
+        if desc.get('family') == 'sampling':
+            snip = _sampling_snippet(desc)
+            key = 'sampling-%s-%s-%s' % (desc['flavour'], desc['dtype'], desc['mode'])
+        elif 'kind' in desc and 'cvs' in desc:
+            snip = _interp_snippet(desc)
+            key = 'textbook-%s-d%d' % (desc['kind'].replace('_', ''), len(desc['cvs']))
+        if snip is None:
+            continue
+        ok, err = _exec(snip)
+        if not ok:
+            return C.Probe(False, key, 'failing correspondence case %s replayed against the textbook reference' % what,
+                           snip, err)
+    return None
 
 
 LEVEL_TEXT = 'in progress'
